@@ -91,8 +91,21 @@ func AlterValue(n *Node, variant int) (*Node, bool) {
 	case "scalar32":
 		x := new(big.Int).SetBytes(n.B)
 		d := big.NewInt(1)
-		if variant%2 == 1 {
+		switch variant % 4 {
+		case 1:
 			d = big.NewInt(-1)
+		case 2:
+			// the negated scalar: the value whose image differs from the original's only in the sign of y
+			if x.Sign() > 0 && x.Cmp(secpN) < 0 && new(big.Int).Lsh(x, 1).Cmp(secpN) != 0 {
+				out := make([]byte, 32)
+				new(big.Int).Sub(secpN, x).FillBytes(out)
+				return &Node{K: Bytes, B: out}, true
+			}
+		case 3:
+			// a valid-looking unrelated scalar
+			d = new(big.Int).Rsh(secpN, 3)
+			x.Add(x, d).Mod(x, secpN)
+			d = big.NewInt(0)
 		}
 		x.Add(x, d)
 		if x.Sign() <= 0 {
